@@ -738,6 +738,16 @@ func init() {
 	I["strings.IndexByte"] = func(g *G, a []Value, pos token.Pos) Value {
 		return g.indexByte(strBytes(a[0]), a[1].(IntV))
 	}
+	// strings.Builder guards against copies and builds its result with package unsafe
+	I["(*strings.Builder).copyCheck"] = func(g *G, a []Value, pos token.Pos) Value { return nil }
+	I["(*strings.Builder).String"] = func(g *G, a []Value, pos token.Pos) Value {
+		st := (*a[0].(*Value)).(Struct)
+		t := g.vm.lookupType("strings", "Builder")
+		bs, _ := st[fieldIndex(t, "buf")].([]Value)
+		c := make([]Value, len(bs))
+		copy(c, bs)
+		return mkStr(c)
+	}
 	I["internal/stringslite.Clone"] = func(g *G, a []Value, pos token.Pos) Value { return a[0] }
 	I["strings.Clone"] = func(g *G, a []Value, pos token.Pos) Value { return a[0] }
 	I["internal/bytealg.CountString"] = func(g *G, a []Value, pos token.Pos) Value {
